@@ -35,7 +35,9 @@ def family_lengths(rng, tier, boost=1):
     elif u < 0.85:
         ls = [rng.randint(1, kmax) for _ in range(rng.randint(2, 9))]
     else:
-        ls = [rng.randint(kmax, 4 * kmax if tier == "quick" else 12 * kmax)]   # one long chain: depth of the recursion
+        # one long chain: depth of the backward recursion (up to 120 levels quick / 392 thorough; the reference matchers
+        # of the oracles recurse as deep, so this stays well below the interpreter's limit of 1000 frames)
+        ls = [rng.randint(kmax, 12 * kmax if tier == "quick" else 28 * kmax)]
         if rng.random() < 0.5:
             ls += [1, 2, 3]
     rng.shuffle(ls)
